@@ -118,6 +118,14 @@ pub enum Op {
     Readapt(usize),
     /// insert an idle callback (which itself may act when it runs)
     InsertIdle,
+    /// adapt_io on the fd of a live fd source: must fail (already registered) and change nothing
+    AdaptDup(usize),
+    /// insert a second Generic over the fd of a live fd source: must fail and change nothing
+    InsertDup(usize),
+    /// a removed fd source the harness still holds (Dispatcher): release and drop it now
+    Release(usize),
+    /// insert a new Generic over the fd of a removed-but-still-held fd source
+    InsertSameFd(usize),
     /// executor: schedule a future that stays pending until its gate is opened
     SchedulePending(usize),
     /// executor: open the gate of the k-th pending task and wake it
@@ -148,6 +156,10 @@ pub struct Cfg {
     pub top_clone: bool,
     pub top_release: bool,
     pub cb_idle: bool,
+    /// duplicate-fd faults (adapt_io / insert over an fd that is already registered)
+    pub top_dup: bool,
+    /// removed Dispatcher-held fd sources are released by an explicit operation, not at once
+    pub defer_release: bool,
     pub exec_pending: bool,
     /// every violation found by this driver also counts against this property (C08: "has the
     /// effect it would have outside a dispatch" is judged by all the other monitors)
@@ -200,6 +212,8 @@ impl Cfg {
             top_clone: false,
             top_release: false,
             cb_idle: false,
+            top_dup: false,
+            defer_release: false,
             exec_pending: false,
             tag_all: None,
             end_order_choice: false,
@@ -335,6 +349,9 @@ pub struct Ctx {
     pub idles: Vec<(u32, u32)>,
     /// end of the execution: monitors are off while reference cycles are being broken
     pub teardown: bool,
+    /// a registration was made to fail (duplicate fd): from now on a damaged kernel table is
+    /// also a C15 matter ("a failing call leaves every other source intact")
+    pub dup_fault_seen: bool,
     pub dispatch_no: u32,
     pub pending_efd: Option<Rc<OwnedFd>>,
     pub pending_stream: Option<std::os::unix::net::UnixStream>,
@@ -671,6 +688,12 @@ impl Ctx {
                         v.push(Op::Stale(i, k));
                     }
                 }
+                if c.defer_release && self.rt[i].fdd.is_some() {
+                    v.push(Op::Release(i));
+                    if self.m.len() < c.max_actors && !self.m.iter().enumerate().any(|(k, a)| a.alive && k != i && self.rt[k].efd.as_ref().map(|e| e.as_raw_fd()) == self.rt[i].efd.as_ref().map(|e| e.as_raw_fd())) {
+                        v.push(Op::InsertSameFd(i));
+                    }
+                }
                 if c.top_release && self.m.len() < c.max_actors {
                     if self.rt[i].released_efd.is_some() || self.rt[i].released.is_some() {
                         v.push(Op::ReinsertFd(i));
@@ -772,6 +795,12 @@ impl Ctx {
         }
         if !in_cb && c.top_release && self.rt[i].fdd.is_some() {
             v.push(Op::Unwrap(i));
+        }
+        if !in_cb && c.top_dup && a.enabled {
+            if let KindSpec::Fd { .. } = a.spec {
+                v.push(Op::AdaptDup(i));
+                v.push(Op::InsertDup(i));
+            }
         }
         if !in_cb && c.top_fill {
             if let KindSpec::Fd { .. } = a.spec {
@@ -1515,6 +1544,48 @@ impl Ctx {
                     KindSpec::Timer(_) | KindSpec::Exec | KindSpec::ExecIo => {}
                 }
             }
+            Op::AdaptDup(j) | Op::InsertDup(j) => {
+                self.clause("duplicate-fd");
+                self.dup_fault_seen = true;
+                let efd = self.rt[j].efd.clone().unwrap();
+                let before = self.h.verif_stats();
+                let err = if let Op::AdaptDup(_) = op {
+                    self.h.adapt_io(FdRef(efd)).map(|_| ()).map_err(|e| format!("{e:?}"))
+                } else {
+                    self.h
+                        .insert_source(Generic::new(FdRef(efd), Interest::READ, Mode::Level), |_, _, _: &mut Ctx| Ok(PostAction::Continue))
+                        .map(|t| self.h.remove(t))
+                        .map_err(|e| format!("{:?}", e.error))
+                };
+                if err.is_ok() {
+                    self.violate(&["C15", "C16"], "duplicate-fd-accepted", &[], format!("{op:?}: registering an fd that is already registered in this loop succeeded"));
+                }
+                let after = self.h.verif_stats();
+                let occ = |s: &calloop::verif::Stats| s.slots.iter().filter(|x| x.1).map(|x| x.0).collect::<Vec<_>>();
+                if occ(&before) != occ(&after) {
+                    self.violate(&["C15"], "failed-insert-leaks-slot", &[], format!("{op:?} failed but the occupied slots changed: {:?} -> {:?}", occ(&before), occ(&after)));
+                }
+                // the kernel registration of the source that owns the fd is compared by after_step
+            }
+            Op::Release(j) => {
+                if let Some(d) = self.rt[j].fdd.take() {
+                    match catch_unwind(AssertUnwindSafe(move || drop(d.into_source_inner()))) {
+                        Ok(()) => {}
+                        Err(_) => self.violate(&["C06"], "not-released", &[("kind", "FdLevel".into()), ("removed_by", self.m[j].removed_by.to_string())],
+                            format!("into_source_inner of removed fd actor {j} failed")),
+                    }
+                }
+            }
+            Op::InsertSameFd(j) => {
+                let e = self.rt[j].efd.clone().unwrap();
+                self.pending_efd = Some(e);
+                let fdc = self.m[j].fdc;
+                self.insert(KindSpec::Fd { r: true, w: false, mode: 0 });
+                if let Some(a) = self.m.last_mut() {
+                    a.fdc = fdc;
+                    a.edge_pending = fdc > 0;
+                }
+            }
             Op::Unwrap(j) => {
                 let tok = self.rt[j].token.expect("token");
                 self.h.remove(tok);
@@ -1922,6 +1993,10 @@ impl Ctx {
                     self.violate(&["C06"], "double-drop", &[("kind", kind.into())],
                         format!("actor {i} ({kind}) source dropped {sd}x, callback dropped {cd}x"));
                 }
+                if !a.alive && is_disp && self.cfg.defer_release && self.rt[i].fdd.is_some() {
+                    // released later by an explicit operation; the loop must not hold it though
+                    continue;
+                }
                 if !a.alive {
                     if is_disp {
                         // harness still owns a Dispatcher handle: the loop must have released its own
@@ -2076,7 +2151,13 @@ impl Ctx {
         for r in &self.rt {
             r.token.map(|t| calloop::verif::registration_key(&t)).hash(&mut h);
             r.track.registered.get().hash(&mut h);
+            // harness-side state that decides which operations are possible later
+            (r.timer.is_some(), r.fdd.is_some(), r.adapter.is_some(), r.released.is_some(), r.released_efd.is_some()).hash(&mut h);
+            (r.pings.len(), r.senders.len(), r.gates.len()).hash(&mut h);
+            r.efd.as_ref().map(|e| e.as_raw_fd() - self.epfd).hash(&mut h);
+            r.async_fd.map(|f| f - self.epfd).hash(&mut h);
         }
+        self.idles.hash(&mut h);
         let s = self.h.verif_stats();
         for sl in &s.slots {
             (sl.0, sl.1).hash(&mut h);
@@ -2171,6 +2252,7 @@ pub fn run_history(cfg: &Rc<Cfg>, verbose: bool) -> (Outcome, Option<Vec<String>
         poisoned: false,
         idles: vec![],
         teardown: false,
+        dup_fault_seen: false,
         dispatch_no: 0,
         pending_efd: None,
         pending_stream: None,
@@ -2243,7 +2325,7 @@ pub fn run_history(cfg: &Rc<Cfg>, verbose: bool) -> (Outcome, Option<Vec<String>
         ctx.decoded.push("end: sources and handles dropped before the loop".into());
     }
     let Ctx {
-        h, m, mut rt, mut violations, decoded, obs, transitions, callbacks, deviated, clauses, verbose, depth_used, poisoned, ..
+        h, m, mut rt, mut violations, dup_fault_seen, decoded, obs, transitions, callbacks, deviated, clauses, verbose, depth_used, poisoned, ..
     } = ctx;
     if end_order == 1 {
         // everything the harness holds goes first, the loop last
@@ -2270,7 +2352,8 @@ pub fn run_history(cfg: &Rc<Cfg>, verbose: bool) -> (Outcome, Option<Vec<String>
             }
             let held = r.timer.is_some() || r.fdd.is_some();
             let (sd, cd) = (r.track.src_dropped.get(), r.track.cb_dropped.get());
-            let expect = if held && m[i].alive { 0 } else { 1 };
+            // whatever the harness still holds through a Dispatcher cannot have been dropped yet
+            let expect = if held { 0 } else { 1 };
             if sd != expect || cd != expect {
                 let mut features = BTreeMap::new();
                 features.insert("kind".to_string(), m[i].spec.name().to_string());
@@ -2289,6 +2372,13 @@ pub fn run_history(cfg: &Rc<Cfg>, verbose: bool) -> (Outcome, Option<Vec<String>
         }
     }
     drop(rt);
+    if dup_fault_seen {
+        for v in violations.iter_mut() {
+            if v.clause.starts_with("epoll-") && !v.props.iter().any(|p| p == "C15") {
+                v.props.push("C15".to_string());
+            }
+        }
+    }
     if let Some(tag) = cfg.tag_all {
         for v in violations.iter_mut() {
             if !v.props.iter().any(|p| p == tag) {
